@@ -119,6 +119,39 @@ fn main() {
             println!("inputs1={}", join(&r.1));
             println!("grandparents={}", join(&r.2));
         }
+        // table_get targetU:seq shape(c,c,..) uk:seq:op:vv ...   (entries in sorted order; blocks per shape)
+        "table_get" => {
+            let t = key(a[1]);
+            let shape: Vec<usize> = a[2].split(',').map(|x| num(x) as usize).collect();
+            let fs = std::sync::Arc::new(raindb::fs::InMemoryFileSystem::new());
+            // a data block is flushed once its size estimate reaches max_block_size: the last entry of each
+            // block gets a value long enough to cross the threshold, all others stay far below it
+            let o = v::options_with(fs, 400);
+            let mut ends = vec![];
+            let mut acc = 0;
+            for c in &shape {
+                acc += c;
+                ends.push(acc - 1);
+            }
+            let mut owned: Vec<(Vec<u8>, u64, bool, Vec<u8>)> = vec![];
+            for (i, e) in a[3..].iter().enumerate() {
+                let p: Vec<&str> = e.split(':').collect();
+                let mut val = hex(p[3]);
+                if ends.contains(&i) {
+                    val.resize(420, 0xaa);
+                }
+                owned.push((hex(p[0]), num(p[1]), p[2] == "1", val));
+            }
+            let ents: Vec<(&[u8], u64, bool, &[u8])> = owned.iter().map(|e| (e.0.as_slice(), e.1, e.2, e.3.as_slice())).collect();
+            if !v::table_build(&o, &ents) {
+                println!("result=build-failed");
+                return;
+            }
+            let (code, val) = v::table_get(&o, &t.0, t.1);
+            let names = ["Ok(Some)", "Ok(None)", "Err(KeyNotFound)", "Err(other)"];
+            println!("result={}", names[code as usize]);
+            println!("value={}", if val.is_empty() { "-".to_string() } else { tohex(&val[..1]) });
+        }
         other => {
             eprintln!("unknown command {}", other);
             std::process::exit(2);
